@@ -244,3 +244,14 @@ package api
 //@   ensures[hotpgen] p == "/hotp/generate" && ispost(ctx) && jok(b, otpGenerateReq) && trim(jstr(b, "secret")) != "" && b32ok(jstr(b, "secret")) ==> respstatus(ctx) == 200 &&
 //@ |   jstr(respbody(ctx), "code") == hotp(algoof(jstr(b, "algorithm")), b32key(jstr(b, "secret")), jnum(b, "counter"), digitsof(jstr(b, "digits")))
 //@   ensures[secret] p == "/otp/secret" && isget(ctx) ==> respstatus(ctx) == 200 || respstatus(ctx) == 500
+
+// ---- middleware (safety only) -----------------------------------------------------
+
+//@ func api.Recovery$1(ctx)
+//@   requires ctx != nil
+//@   modifies ctx
+//@ func api.Logger$1(ctx)
+//@   requires ctx != nil
+//@   modifies ctx
+//@ func api.Chain$1(final) (r)
+//@   loop 1 decreases i + 1
